@@ -55,7 +55,12 @@ SCENARIOS = [
     # two priorities in one scheduling pass while the pilot is busy: both wait, each in its own pool
     ('prio-wait',    [T('t0', cores=2), T('t1', cores=2, prio=1), T('t2')], [['t0'], ['t1', 't2']], [], 2),
     ('prio-cancel',  [T('t0', cores=2), T('t1', cores=2, prio=1), T('t2')], [['t0'], ['t1', 't2']], [['t1']], 2),
+    # a cancel request naming a task which is (often) final already while bystanders are alive
+    ('cancel-final', [T('t1', 'tin'), T('t2'), T('t3')], [['t1'], ['t2', 't3']], [['t1']], 2),
+    # one bulk with different outcomes reaching the client side output stager together
+    ('mixed-out',    [T('t1'), T('t2', 'exit'), T('t3')], [['t1', 't2', 't3']], [], 3),
 ]
+C15_SCENARIOS = ['stagein-bulk', 'stagein-bulk2', 'mixed-out', 'stageout', 'exit-cancel', 'soe-exit']
 
 # directed step sequences (followed by a seeded random completion): interleavings
 # worth having on every run
@@ -171,7 +176,11 @@ def run(chk, tier, seed):
     quick = tier == 'quick'
     rng   = random.Random(seed * 65537 + 3)
 
-    scen = SCENARIOS[:11] if quick else SCENARIOS[:15]     # (the model has no stage_on_error / multi-pilot notion)
+    # C15 share: a wait can only return if the client learns that a task is final - judged on the runs
+    # of a few scenarios with mixed outcomes and bulks spanning pilots, without the model checking part
+    c15 = pid == 'C15'
+    scenarios = [s for s in SCENARIOS if s[0] in C15_SCENARIOS] if c15 else SCENARIOS
+    scen = [] if c15 else (SCENARIOS[:11] if quick else SCENARIOS[:15])     # (the model has no stage_on_error / multi-pilot notion)
     for name, tasks, bulks, cancels, ncores in scen:
         if len(tasks) > 2 and quick:
             continue
@@ -191,7 +200,7 @@ def run(chk, tier, seed):
                                 % (res.violated, name, res.trace[:3000]))
     chk.exhaustive = True
 
-    if not quick:
+    if not quick and not c15:
         for dev, sname, inv in [('DevIntakeCancelNoRelease', 'cancel-both', 'FreedAll'),
                                 ('DevExecRaiseNoRelease', 'raise-exec', 'FreedAll')]:
             _, tasks, bulks, cancels, ncores = [s for s in SCENARIOS if s[0] == sname][0]
@@ -212,7 +221,7 @@ def run(chk, tier, seed):
 
     jobs = []
     nsim = 25 if quick else 250
-    for name, tasks, bulks, cancels, ncores in SCENARIOS:
+    for name, tasks, bulks, cancels, ncores in scenarios:
         dump = tlc.scratch('rppsim_')
         try:
             res = tlc.run('Pipeline', 'MCP', 'MCP.cfg', workers=1, timeout=600,
@@ -269,6 +278,8 @@ def run(chk, tier, seed):
                 owners.add('C03')
             if err in ('C03.ReleasedTwice', 'C08.ResourcesNotFreed'):
                 owners.add('C07')       # the executor asks for the release, exactly once
+            if err == 'C05.NotFinal':
+                owners.add('C15')       # a task which never becomes final on the client: waits on it hang
             if pid not in owners:
                 continue
             clause = err if p == pid else pid + '.' + err.split('.', 1)[1]
